@@ -41,7 +41,7 @@ def run(R):
     R.cov.update({"evaluations": nlen + total - ngroups, "distinct_nontrivial": len(distinct),
                   "rule": "one group per (variant, call form, key, nonce, initial counter): every length 0..maxlen checked against the TLC-evaluated keystream (bytes at 36 boundary lengths, two position-weighted checksums at every length, guard page after the output); evaluations = (group, length) pairs + core/limit records; distinct_nontrivial = distinct groups (initial counters 0, 2^32-k, 2^64-k, random) + distinct core/limit records",
                   "groups": ngroups, "configurations": ["%s %s" % c for c in CFGS]})
-    R.sample({k: v for k, v in json.loads(open(files[0]).readline()).items() if k not in ("sums", "full")})
+    R.sample_line(files[0], 0, drop=("sums", "full"))
     R.assumptions += ["at non-boundary lengths only two checksums of the output are compared (a difference that preserves both the byte sum and the position-weighted sum would be missed)"]
 
 
